@@ -236,8 +236,7 @@ def reader_check(ctx, mode, mc_args, drivers, gen_args=None, l1=True, thorough_m
     for d, tf in traces:
         count_runs(ctx, tf)
     missing = [k for k in need if ctx.extra.get("trace_outcome_coverage", {}).get(k, 0) == 0]
-    if missing:
-        raise C.ToolError("vacuity: outcomes never observed in the recorded traces: %s" % missing)
+    ctx.vacuity = ("vacuity: outcomes never observed in the recorded traces: %s" % missing) if missing else None
     # verdicts (property specification) and, alongside, full conformance with Level 1 (statistic only)
     jobs = []
     with concurrent.futures.ThreadPoolExecutor(max_workers=5) as ex:
@@ -398,8 +397,7 @@ def writer_check(ctx, mode, drivers, need=()):
         traces.append((d, tf))
         count_wruns(ctx, tf)
     missing = [k for k in need if ctx.extra.get("trace_outcome_coverage", {}).get(k, 0) == 0]
-    if missing:
-        raise C.ToolError("vacuity: call outcomes never observed in the recorded traces: %s" % missing)
+    ctx.vacuity = ("vacuity: call outcomes never observed in the recorded traces: %s" % missing) if missing else None
     jobs = []
     with concurrent.futures.ThreadPoolExecutor(max_workers=5) as ex:
         for d, tf in traces:
